@@ -3,7 +3,7 @@ package c15
 // corpusDocs: fixed documents rendered first on every run (minimal witnesses of past findings).
 func corpusDocs() []Doc {
 	return []Doc{
-		// KF15-1: two anchors on one page; their order in CreateAnchors follows map iteration
+		// F15-1 / KF15-1 (fixed in /repo by 37ac465): two anchors on one page; their order in CreateAnchors followed map iteration
 		{Seed: 0, Feats: []string{"ids"}, HTML: `<p id="a">x</p><p id="b">y</p>`},
 		{Seed: 0, Feats: []string{"ids"}, HTML: `<style>@page{size:200px 100px}</style><p id="a">x</p><p id="b">y</p><p id="c" style="break-before:page">z</p><p id="d">z</p><p id="e">z</p><a href="#b">l</a>`},
 		// KF15-2: two floats broken across the same page break are re-inserted on the next page in map order
